@@ -351,6 +351,156 @@ static std::string op_load(const std::vector<std::string>& w)
     return e == SB_SUCCESS ? out : "e" + S(e);
 }
 
+static std::vector<std::string> csv(const std::string& s)
+{
+    std::vector<std::string> out;
+    if (s == "-") {
+        return out;
+    }
+    std::stringstream ss(s);
+    std::string tok;
+    while (std::getline(ss, tok, ',')) {
+        out.push_back(tok);
+    }
+    return out;
+}
+
+// rth <hex> <point indices csv> <times csv (binary32 hex)>
+static std::string op_rth(const std::vector<std::string>& w)
+{
+    std::vector<uint8_t> b = unhex(w[1]);
+    Guarded g(b);
+    sb_rth_plan_t plan;
+    sb_error_t e = sb_rth_plan_init_from_buffer(&plan, g.ptr, g.n);
+    if (e != SB_SUCCESS) {
+        return "init:" + code(e);
+    }
+    std::string out = "init:0 ne=" + U(sb_rth_plan_get_num_entries(&plan)) + " np=" + U(sb_rth_plan_get_num_points(&plan));
+    for (const std::string& t : csv(w[2])) {
+        sb_vector2_t pt;
+        e = sb_rth_plan_get_point(&plan, (size_t)strtoull(t.c_str(), 0, 10), &pt);
+        out += " p:" + code(e);
+        if (e == SB_SUCCESS) {
+            out += ":" + fhex(pt.x) + "," + fhex(pt.y);
+        }
+    }
+    for (const std::string& t : csv(w[3])) {
+        sb_rth_plan_entry_t r;
+        memset(&r, 0x5A, sizeof r);
+        e = sb_rth_plan_evaluate_at(&plan, f_of_hex(t), &r);
+        out += " q:" + code(e);
+        if (e == SB_SUCCESS) {
+            out += ":" + fhex(r.time_sec) + "," + S((int)r.action) + "," + fhex(r.duration_sec) + "," + fhex(r.target.x) + "," + fhex(r.target.y) + ","
+                + fhex(r.target_altitude) + "," + fhex(r.pre_delay_sec) + "," + fhex(r.post_delay_sec) + "," + fhex(r.pre_neck_mm) + "," + fhex(r.pre_neck_duration_sec);
+        }
+    }
+    sb_rth_plan_destroy(&plan);
+    return out;
+}
+
+static std::string vec4hex(const sb_vector3_with_yaw_t& v)
+{
+    return fhex(v.x) + "," + fhex(v.y) + "," + fhex(v.z) + "," + fhex(v.yaw);
+}
+
+// traj <mode f|h> <hex> <queries>: f = a fresh player per query, h = one player (history);
+// in h mode every answer is also compared bit for bit with a fresh player's
+static std::string op_traj(const std::vector<std::string>& w)
+{
+    bool hist = w[1] == "h";
+    std::vector<uint8_t> b = unhex(w[2]);
+    Guarded g(b);
+    sb_trajectory_t tr;
+    sb_error_t e = sb_trajectory_init_from_buffer(&tr, g.ptr, g.n);
+    if (e != SB_SUCCESS) {
+        return "init:" + code(e);
+    }
+    std::string out = "init:0 scale=" + S((int)tr.scale) + " yaw=" + S(tr.use_yaw ? 1 : 0) + " start=" + vec4hex(tr.start);
+    {
+        // every way of asking for the total duration
+        uint32_t d1 = sb_trajectory_get_total_duration_msec(&tr);
+        float d1s = sb_trajectory_get_total_duration_sec(&tr);
+        sb_trajectory_player_t pl;
+        uint32_t d2 = 0;
+        sb_error_t e2 = sb_trajectory_player_init(&pl, &tr);
+        if (e2 == SB_SUCCESS) {
+            e2 = sb_trajectory_player_get_total_duration_msec(&pl, &d2);
+            sb_trajectory_player_destroy(&pl);
+        }
+        sb_trajectory_stats_calculator_t calc;
+        sb_trajectory_stats_t st;
+        memset(&st, 0, sizeof st);
+        sb_trajectory_stats_calculator_init(&calc, 1.0f);
+        sb_trajectory_stats_calculator_set_components(&calc, SB_TRAJECTORY_STATS_DURATION);
+        sb_error_t e3 = sb_trajectory_stats_calculator_run(&calc, &tr, &st);
+        sb_trajectory_stats_calculator_destroy(&calc);
+        int nseg = 0;
+        sb_error_t e4 = sb_trajectory_player_init(&pl, &tr);
+        if (e4 == SB_SUCCESS) {
+            e4 = sb_trajectory_player_rewind(&pl);
+            while (e4 == SB_SUCCESS && sb_trajectory_player_has_more_segments(&pl)) {
+                nseg++;
+                e4 = sb_trajectory_player_build_next_segment(&pl);
+            }
+            sb_trajectory_player_destroy(&pl);
+        }
+        out += " dur=" + U(d1) + "," + fhex(d1s) + "," + code(e2) + "," + U(d2) + "," + code(e3) + "," + U(st.duration_msec) + "," + U(st.duration_sec) + " nseg=" + (e4 == SB_SUCCESS ? S(nseg) : code(e4));
+    }
+    sb_trajectory_player_t hp;
+    sb_trajectory_player_init(&hp, &tr);
+    for (const std::string& q : csv(w[3])) {
+        char kind = q[0];
+        float t = f_of_hex(q.substr(1));
+        sb_trajectory_player_t fp;
+        sb_trajectory_player_init(&fp, &tr);
+        sb_vector3_with_yaw_t vf, vh;
+        memset(&vf, 0x5A, sizeof vf);
+        memset(&vh, 0x5A, sizeof vh);
+        sb_error_t ef, eh = SB_SUCCESS;
+        if (kind == 'p') {
+            ef = sb_trajectory_player_get_position_at(&fp, t, &vf);
+            if (hist) eh = sb_trajectory_player_get_position_at(&hp, t, &vh);
+        } else if (kind == 'v') {
+            ef = sb_trajectory_player_get_velocity_at(&fp, t, &vf);
+            if (hist) eh = sb_trajectory_player_get_velocity_at(&hp, t, &vh);
+        } else {
+            ef = sb_trajectory_player_get_acceleration_at(&fp, t, &vf);
+            if (hist) eh = sb_trajectory_player_get_acceleration_at(&hp, t, &vh);
+        }
+        const sb_trajectory_player_t* used = hist ? &hp : &fp;
+        sb_error_t eu = hist ? eh : ef;
+        const sb_vector3_with_yaw_t& vu = hist ? vh : vf;
+        out += std::string(" ") + kind + ":" + code(eu);
+        if (eu == SB_SUCCESS) {
+            out += ":" + vec4hex(vu) + ":" + U(used->current_segment.start);
+        }
+        if (hist) {
+            // C08: bit for bit the fresh answer, or (exactly at a boundary) the adjoining segment's
+            if (ef != eh) {
+                out += ":X";
+            } else if (ef != SB_SUCCESS || memcmp(&vf, &vh, sizeof vf) == 0) {
+                out += ":=";
+            } else {
+                float tt = t <= 0 ? 0 : t;
+                bool hist_next = hp.current_segment.data.start_time_sec == tt && fp.current_segment.data.end_time_sec == tt;
+                bool hist_prev = hp.current_segment.data.end_time_sec == tt && fp.current_segment.data.start_time_sec == tt;
+                out += (hist_next || hist_prev) ? ":b" : ":X";
+            }
+        }
+        sb_trajectory_player_destroy(&fp);
+    }
+    sb_trajectory_player_destroy(&hp);
+    {
+        sb_vector3_with_yaw_t v;
+        e = sb_trajectory_get_start_position(&tr, &v);
+        out += " s:" + code(e) + (e == SB_SUCCESS ? ":" + vec4hex(v) : "");
+        e = sb_trajectory_get_end_position(&tr, &v);
+        out += " e:" + code(e) + (e == SB_SUCCESS ? ":" + vec4hex(v) : "");
+    }
+    sb_trajectory_destroy(&tr);
+    return out;
+}
+
 static std::string op_crc(const std::vector<std::string>& w)
 {
     // crc <init> <hex> <split points, csv or ->: successive calls on the pieces
@@ -397,6 +547,12 @@ static std::string run_case(const std::vector<std::string>& w)
     if (op == "file") {
         return op_file(w);
     }
+    if (op == "traj") {
+        return op_traj(w);
+    }
+    if (op == "rth") {
+        return op_rth(w);
+    }
     if (op == "load") {
         return op_load(w);
     }
@@ -437,6 +593,12 @@ int main(int argc, char** argv)
             continue;
         }
         std::string out;
+        static int n_timeouts = 0;
+        if (n_timeouts >= 6) {
+            // the run is already a failure; do not spend hours on the rest
+            puts("skipped-after-timeouts");
+            continue;
+        }
         int sig = sigsetjmp(g_jmp, 1);
         if (sig == 0) {
             g_in_case = 1;
@@ -448,6 +610,9 @@ int main(int argc, char** argv)
             alarm(0);
             g_in_case = 0;
             out = sig == SIGALRM ? "timeout" : ("crash " + S(sig));
+            if (sig == SIGALRM) {
+                n_timeouts++;
+            }
         }
         fputs(out.c_str(), stdout);
         fputc('\n', stdout);
